@@ -636,13 +636,21 @@ class DAG(BaseDAG[P, RVDAG]):
         """
         graph = self._pre_setup(target_nodes, exclude_nodes, root_nodes)
 
-        # 4. execute the graph and set the results to setup_results
-        _, self.results, _ = sync_execute(
+        # 4. execute the graph and store the results of the setup ExecNodes
+        with setup_results_lock:
+            known_results = StrictDict(self.results)
+        _, results, _ = sync_execute(
             exec_nodes=self.exec_nodes,
-            results=self.results,
+            results=known_results,
             max_concurrency=self.max_concurrency,
             graph=graph,
         )
+        # DAG.results is updated in place, like a call does it: replacing it would drop
+        #  what another thread has stored since this setup started
+        with setup_results_lock:
+            for node_id, result in results.items():
+                if node_id not in self.results:
+                    self.results[node_id] = result
 
     # TODO: discuss whether we want to expose it or not
     def run_subgraph(
@@ -662,10 +670,12 @@ class DAG(BaseDAG[P, RVDAG]):
         Returns:
             a mapping between the execnodes and there identifiers
         """
-        if results is None:
-            results = extend_results_with_args(self.results, self.input_uxns, *args)
-        else:
-            results = extend_results_with_args(results, self.input_uxns, *args)
+        # the known results are copied under the lock: another thread may be storing setup results at this very moment
+        with setup_results_lock:
+            if results is None:
+                results = extend_results_with_args(self.results, self.input_uxns, *args)
+            else:
+                results = extend_results_with_args(results, self.input_uxns, *args)
 
         exec_nodes, results, profiles = sync_execute(
             exec_nodes=self.exec_nodes,
@@ -897,13 +907,21 @@ class AsyncDAG(BaseDAG[P, RVDAG]):
         """
         graph = self._pre_setup(target_nodes, exclude_nodes, root_nodes)
 
-        # 4. execute the graph and set the results to setup_results
-        _, self.results, _ = await async_execute(
+        # 4. execute the graph and store the results of the setup ExecNodes
+        with setup_results_lock:
+            known_results = StrictDict(self.results)
+        _, results, _ = await async_execute(
             exec_nodes=self.exec_nodes,
-            results=self.results,
+            results=known_results,
             max_concurrency=self.max_concurrency,
             graph=graph,
         )
+        # DAG.results is updated in place, like a call does it: replacing it would drop
+        #  what another thread or task has stored since this setup started
+        with setup_results_lock:
+            for node_id, result in results.items():
+                if node_id not in self.results:
+                    self.results[node_id] = result
         return
 
     # TODO: refactor this with previous method
@@ -924,10 +942,12 @@ class AsyncDAG(BaseDAG[P, RVDAG]):
         Returns:
             a mapping between the execnodes and there identifiers
         """
-        if results is None:
-            results = extend_results_with_args(self.results, self.input_uxns, *args)
-        else:
-            results = extend_results_with_args(results, self.input_uxns, *args)
+        # the known results are copied under the lock: another thread may be storing setup results at this very moment
+        with setup_results_lock:
+            if results is None:
+                results = extend_results_with_args(self.results, self.input_uxns, *args)
+            else:
+                results = extend_results_with_args(results, self.input_uxns, *args)
 
         exec_nodes, results, profiles = await async_execute(
             exec_nodes=self.exec_nodes,
